@@ -1172,7 +1172,7 @@ def gen_cfg(rng, alpha_kinds=('fixed',), universe_kinds=('static',), max_days=25
         cfg['alpha'] = {'kind': 'switch', 'first': first_w, 'then': then_w, 'when': '%s 00:00:00+00:00' % when.isoformat()}
         mk.pop('late', None)
     elif ak == 'single':
-        cfg['alpha'] = {'kind': 'single', 'signal': rng.choice([1.0, 0.5, 2.0] if cfg['long_only'] else [1.0, -1.0, 0.5])}
+        cfg['alpha'] = {'kind': 'single', 'signal': rng.choice([1.0, 0.5, 2.0, 1e-9] if cfg['long_only'] else [1.0, -1.0, 0.5, 1e-9])}    # tiny but genuine weights
     elif ak == 'topn_mom':
         cfg['alpha'] = {'kind': 'topn_mom', 'lookback': rng.choice([1, 3, 5, 10, 21]), 'top': rng.randint(1, max(1, n - 1)),
                         'extra_lookbacks': rng.choice([[], [2], [7, 30]])}
